@@ -87,6 +87,12 @@ def case_history(ctx, spec, groups=("balance", "rows")):
                 if n_trades:
                     trade_then_next = True
             try:
+                if k % 2 == 1:
+                    # the tree may be observed through any node first - an idle security whose own clock lags included
+                    mem_ = run.root.members
+                    m_ = mem_[(3 * k + 1) % len(mem_)]
+                    m_.value
+                    m_.weight
                 run.root.value  # settle pending updates first: bankruptcy is only detected inside update
                 if run.root.bankrupt:
                     raise Discard("bankrupt")
